@@ -151,3 +151,277 @@ Proof.
   rewrite (fld_load _ G_bufs gblk B_lb _ _ Hgb1 Hxb) by reflexivity. xstep.
   rewrite C2. reflexivity.
 Qed.
+
+(* ------------------------------------------------------------------ free() *)
+Fixpoint free_list (vs : list val) (m : mem) : res mem :=
+  match vs with
+  | [] => Ok m
+  | v :: r => match do_builtin_m BFree [v] m with Ok (_, m1) => free_list r m1 | Err e => Err e end
+  end.
+(* a legal free(v): v is NULL (nothing happens) or points to the start of a live block, which is emptied; the other blocks stay *)
+Lemma free_inv v m u m1 : do_builtin_m BFree [v] m = Ok (u, m1) ->
+  (v = VInt 0 /\ m1 = m) \/ (exists b, v = VPtr b 0 /\ forall b', b' <> b -> nth_error m1 b' = nth_error m b').
+Proof.
+  intro H. destruct v as [|z|b o]; cbn [do_builtin_m] in H; [discriminate| |].
+  - destruct z; try discriminate. left. injection H as _ <-. split; reflexivity.
+  - destruct o; try discriminate. destruct (nth_error m b) as [[|c blk]|] eqn:E; try discriminate.
+    destruct (set_nth m b []) as [m'|] eqn:E2; [|discriminate]. injection H as _ <-. right. exists b. split; [reflexivity|].
+    intros b' Hne. assert (Hb : (b < length m)%nat) by (apply nth_error_Some; congruence).
+    rewrite set_nth_upd in E2 by exact Hb. injection E2 as <-. apply nth_error_upd_other; assumption.
+Qed.
+Definition val_block (v : val) : option nat := match v with VPtr b _ => Some b | _ => None end.
+(* the blocks in `keep` are not among the pointers *)
+Definition avoids (vs : list val) (keep : list nat) : Prop := forall v b, In v vs -> val_block v = Some b -> ~ In b keep.
+Lemma free_keeps v m u m1 keep b' : do_builtin_m BFree [v] m = Ok (u, m1) -> avoids [v] keep -> In b' keep -> nth_error m1 b' = nth_error m b'.
+Proof.
+  intros H Ha Hin. destruct (free_inv v m u m1 H) as [[-> ->]|[b [-> Hb]]]; [reflexivity|].
+  apply Hb. intro E. subst b'. apply (Ha (VPtr b 0) b); [left; reflexivity|reflexivity|exact Hin].
+Qed.
+Lemma avoids_cons v vs keep : avoids (v :: vs) keep -> avoids [v] keep /\ avoids vs keep.
+Proof.
+  intro H. split; intros w b Hin Hb; apply (H w b); try assumption; [destruct Hin as [<-|[]]; left; reflexivity|right; exact Hin].
+Qed.
+Lemma avoids_app a b keep : avoids (a ++ b) keep -> avoids a keep /\ avoids b keep.
+Proof. intro H. split; intros w x Hin Hb; apply (H w x); try assumption; apply in_or_app; [left|right]; exact Hin. Qed.
+Lemma free_list_app a b m : free_list (a ++ b) m = match free_list a m with Ok m1 => free_list b m1 | Err e => Err e end.
+Proof.
+  revert m; induction a as [|v a IH]; intro m; [reflexivity|]. cbn [app free_list].
+  destruct (do_builtin_m BFree [v] m) as [[u m1]|e]; [apply IH|reflexivity].
+Qed.
+Lemma free_list_keeps vs : forall m m1 keep b', free_list vs m = Ok m1 -> avoids vs keep -> In b' keep -> nth_error m1 b' = nth_error m b'.
+Proof.
+  induction vs as [|v vs IH]; intros m m1 keep b' H Ha Hin; [injection H as <-; reflexivity|].
+  cbn [free_list] in H. destruct (do_builtin_m BFree [v] m) as [[u ma]|e] eqn:E; [|discriminate].
+  destruct (avoids_cons _ _ _ Ha) as [A1 A2].
+  rewrite (IH ma m1 keep b' H A2 Hin). apply (free_keeps v m u ma keep b' E A1 Hin).
+Qed.
+
+(* ------------------------------------------------------------------ lopt_done: free(lo->ins); free(lo->del); free(lo->mark); free(lo->mark_off) *)
+(* the four pointers of log entry i of the hist block *)
+Definition ent_ptrs (hblk : block) (i : nat) : list val :=
+  [nth (9 * i) hblk VUndef; nth (9 * i + 1) hblk VUndef; nth (9 * i + 7) hblk VUndef; nth (9 * i + 8) hblk VUndef].
+(* a pointer cell that free() accepts is a pointer cell that a pointer load accepts *)
+Lemma free_loadable v m u m1 : do_builtin_m BFree [v] m = Ok (u, m1) -> v = VInt 0 \/ exists b, v = VPtr b 0.
+Proof. intro H. destruct (free_inv v m u m1 H) as [[-> _]|[b [-> _]]]; [left; reflexivity|right; exists b; reflexivity]. Qed.
+
+Theorem tr_lopt_done m bh hblk i m1 d fuel : nth_error m bh = Some hblk -> (9 * i + 9 <= length hblk)%nat ->
+  avoids (ent_ptrs hblk i) [bh] -> free_list (ent_ptrs hblk i) m = Ok m1 ->
+  callf cprog fuel (S d) F_lopt_done [VPtr bh (Z.of_nat (9 * i))] m = Ok (VUndef, m1).
+Proof.
+  intros Hh Hlen Ha Hf. unfold ent_ptrs in Hf, Ha. cbn [free_list] in Hf.
+  set (v0 := nth (9 * i) hblk VUndef) in *. set (v1 := nth (9 * i + 1) hblk VUndef) in *.
+  set (v7 := nth (9 * i + 7) hblk VUndef) in *. set (v8 := nth (9 * i + 8) hblk VUndef) in *.
+  destruct (do_builtin_m BFree [v0] m) as [[u0 ma]|] eqn:E0; [|discriminate].
+  destruct (do_builtin_m BFree [v1] ma) as [[u1 mb]|] eqn:E1; [|discriminate].
+  destruct (do_builtin_m BFree [v7] mb) as [[u7 mc]|] eqn:E7; [|discriminate].
+  destruct (do_builtin_m BFree [v8] mc) as [[u8 md]|] eqn:E8; [|discriminate]. injection Hf as <-.
+  destruct (avoids_cons _ _ _ Ha) as [A0 Ha1]. destruct (avoids_cons _ _ _ Ha1) as [A1 Ha2]. destruct (avoids_cons _ _ _ Ha2) as [A7 A8].
+  assert (Ha_ : nth_error ma bh = Some hblk) by (rewrite (free_keeps v0 m u0 ma [bh] bh E0 A0 (or_introl eq_refl)); exact Hh).
+  assert (Hb_ : nth_error mb bh = Some hblk) by (rewrite (free_keeps v1 ma u1 mb [bh] bh E1 A1 (or_introl eq_refl)); exact Ha_).
+  assert (Hc_ : nth_error mc bh = Some hblk) by (rewrite (free_keeps v7 mb u7 mc [bh] bh E7 A7 (or_introl eq_refl)); exact Hb_).
+  assert (C0 : nth_error hblk (9 * i) = Some v0) by (apply nth_error_nth'; lia).
+  assert (C1 : nth_error hblk (9 * i + 1) = Some v1) by (apply nth_error_nth'; lia).
+  assert (C7 : nth_error hblk (9 * i + 7) = Some v7) by (apply nth_error_nth'; lia).
+  assert (C8 : nth_error hblk (9 * i + 8) = Some v8) by (apply nth_error_nth'; lia).
+  enter F_lopt_done cf_lopt_done. xstep.
+  rewrite (fld_load m bh hblk (9 * i) v0 _ Hh C0 eq_refl).
+  destruct (free_loadable _ _ _ _ E0) as [L|[b L]]; rewrite L in *; xstep; rewrite E0; xstep;
+  (rewrite (fld_load ma bh hblk (9 * i + 1) v1 _ Ha_ C1) by lia);
+  destruct (free_loadable _ _ _ _ E1) as [L1|[b1 L1]]; rewrite L1 in *; xstep; rewrite E1; xstep;
+  (rewrite (fld_load mb bh hblk (9 * i + 7) v7 _ Hb_ C7) by lia);
+  destruct (free_loadable _ _ _ _ E7) as [L7|[b7 L7]]; rewrite L7 in *; xstep; rewrite E7; xstep;
+  (rewrite (fld_load mc bh hblk (9 * i + 8) v8 _ Hc_ C8) by lia);
+  destruct (free_loadable _ _ _ _ E8) as [L8|[b8 L8]]; rewrite L8 in *; xstep; rewrite E8; reflexivity.
+Qed.
+
+(* ------------------------------------------------------------------ lbuf_saved: the common tail
+   lb->useq_zero = lbuf_seq(lb); lbuf_modified(xb);   with xb = bufs[0].lb == lb *)
+Definition saved_tail : stmt := match fn_body cf_lbuf_saved with SSeq _ t => t | _ => SSkip end.
+Definition saved_clear : stmt := match fn_body cf_lbuf_saved with SSeq (SIf _ c _) _ => c | _ => SSkip end.
+Definition saved_loop : stmt := match saved_clear with SSeq (SSeq _ w) _ => w | _ => SSkip end.
+
+Lemma saved_tail_ok m bl blk lb gblk d fuel l1 l2 : lbuf_rep m bl blk lb -> lbuf_ints lb -> useq lb < 2147483647 ->
+  bl <> G_bufs -> nth_error m G_bufs = Some gblk -> nth_error gblk B_lb = Some (VPtr bl 0) ->
+  let blk' := upd (upd blk L_useq_zero (VInt (lbuf_seq lb))) L_useq (VInt (useq lb + 1)) in
+  exec (callf cprog fuel (S (S d))) fuel saved_tail (mkst [VPtr bl 0; l1; l2] m) = ONormal (mkst [VPtr bl 0; l1; l2] (upd m bl blk'))
+  /\ lbuf_rep (upd m bl blk') bl blk' (lbuf_saved lb false).
+Proof.
+  intros R Hints Hmax Hg Hgb Hxb blk'. pose proof R as [Rb Rl Ru Rsz Rn Rhu Rz Rla Rh].
+  pose proof Hints as (Hu & Hz & Hl & Hs & Hc & Hn).
+  set (blk1 := upd blk L_useq_zero (VInt (lbuf_seq lb))).
+  assert (Hq : i32 (lbuf_seq lb)) by (unfold lbuf_seq; destruct (hist_u lb); [exact Hl|apply seq_at_i32; exact Hs]).
+  assert (R1 : lbuf_rep (upd m bl blk1) bl blk1 (set_zero lb (lbuf_seq lb))).
+  { apply (rep_store m bl blk lb); try assumption; try reflexivity; try fld_ne; try (unfold LBUF_CELLS; fld_ne);
+      cbn [set_zero useq hist_sz hist_u useq_zero useq_last]; fld_after. }
+  assert (I1 : lbuf_ints (set_zero lb (lbuf_seq lb))) by (unfold lbuf_ints; cbn [set_zero useq hist hist_u useq_zero useq_last]; tauto).
+  assert (Hbl : (bl < length m)%nat) by (apply nth_error_Some; congruence).
+  destruct (tr_lbuf_modified (upd m bl blk1) bl blk1 (set_zero lb (lbuf_seq lb)) d fuel R1 I1 Hmax) as [C2 R2].
+  cbn [set_zero useq] in C2, R2. fold blk' in C2, R2.
+  rewrite upd_upd in C2, R2 by exact Hbl.
+  split; [|exact R2].
+  unfold saved_tail; cbn [fn_body cf_lbuf_saved]. xstep.
+  rewrite (tr_lbuf_seq m bl blk lb (S d) fuel R Hints). xstep. rewrite (wrap_I32_id _ Hq).
+  rewrite (fld_store m bl blk L_useq_zero _ _ Rb) by (try reflexivity; fld_len). xstep. fold blk1.
+  rewrite (callf_S cprog fuel (S d) F_ex_lbuf). cbn [nth_error cprog F_ex_lbuf cf_ex_lbuf fn_nparams fn_nlocals fn_body length Nat.eqb Nat.sub repeat app]. xstep.
+  assert (Hgb1 : nth_error (upd m bl blk1) G_bufs = Some gblk) by (rewrite mem_upd_other by (try assumption; congruence); exact Hgb).
+  rewrite (fld_load _ G_bufs gblk B_lb _ _ Hgb1 Hxb) by reflexivity. xstep.
+  rewrite C2. reflexivity.
+Qed.
+
+(* ------------------------------------------------------------------ the loop  for (i = 0; i < lb->hist_n; i++) lopt_done(&lb->hist[i]); *)
+Definition ptrs_from (hblk : block) (i k : nat) : list val := flat_map (ent_ptrs hblk) (List.seq i k).
+
+Lemma saved_loop_ok bl blk bh hblk n c d fuel :
+  nth_error blk L_hist_n = Some (VInt (Z.of_nat n)) -> ((0 < n)%nat -> nth_error blk L_hist = Some (VPtr bh 0)) ->
+  (9 * n <= length hblk)%nat -> Z.of_nat n <= 2147483647 ->
+  forall k i m m1 fuel', (i + k = n)%nat -> nth_error m bl = Some blk -> nth_error m bh = Some hblk ->
+  avoids (ptrs_from hblk i k) [bl; bh] -> free_list (ptrs_from hblk i k) m = Ok m1 -> (k < fuel')%nat ->
+  exec (callf cprog fuel (S (S d))) fuel' saved_loop (mkst [VPtr bl 0; c; VInt (Z.of_nat i)] m)
+  = ONormal (mkst [VPtr bl 0; c; VInt (Z.of_nat n)] m1).
+Proof.
+  intros Hn Hp Hlen Hmax. induction k as [|k IH]; intros i m m1 fuel' Hik Hb Hh Ha Hf Hfu; (destruct fuel' as [|fuel']; [lia|]);
+    unfold saved_loop, saved_clear; cbn [fn_body cf_lbuf_saved]; rewrite exec_for; xstep; xfld Hb Hn;
+    rewrite wrap_I32_id by lia.
+  - assert (i = n) by lia. subst i. destruct (Z.ltb_spec (Z.of_nat n) (Z.of_nat n)); [lia|]. xstep.
+    cbn in Hf. injection Hf as <-. reflexivity.
+  - destruct (Z.ltb_spec (Z.of_nat i) (Z.of_nat n)); [|lia]. xstep. specialize (Hp ltac:(lia)). xfld Hb Hp.
+    unfold ptrs_from in Hf, Ha. cbn [List.seq flat_map] in Hf, Ha. fold (ptrs_from hblk (S i) k) in Hf, Ha.
+    rewrite free_list_app in Hf. destruct (free_list (ent_ptrs hblk i) m) as [ma|] eqn:E; [|discriminate].
+    destruct (avoids_app _ _ _ Ha) as [A1 A2].
+    assert (A1h : avoids (ent_ptrs hblk i) [bh]).
+    { intros v b Hin Hv Hk. apply (A1 v b Hin Hv). destruct Hk as [<-|[]]. right; left; reflexivity. }
+    replace (0 + 9 * Z.of_nat i) with (Z.of_nat (9 * i)) by lia.
+    rewrite (tr_lopt_done m bh hblk i ma (S d) fuel Hh ltac:(lia) A1h E). xstep.
+    rewrite chk_I32 by lia. xstep. replace (Z.of_nat i + 1) with (Z.of_nat (S i)) by lia.
+    assert (Hb' : nth_error ma bl = Some blk) by (rewrite (free_list_keeps _ m ma [bl; bh] bl E A1 (or_introl eq_refl)); exact Hb).
+    assert (Hh' : nth_error ma bh = Some hblk) by (rewrite (free_list_keeps _ m ma [bl; bh] bh E A1 (or_intror (or_introl eq_refl))); exact Hh).
+    specialize (IH (S i) ma m1 fuel' ltac:(lia) Hb' Hh' A2 Hf ltac:(lia)).
+    unfold saved_loop, saved_clear in IH; cbn [fn_body cf_lbuf_saved] in IH. exact IH.
+Qed.
+
+(* ------------------------------------------------------------------ lbuf_saved(lb, clear != 0) *)
+(* the struct after  lb->hist_n = 0; lb->hist_u = 0; lb->useq_last = lb->useq; *)
+Definition cleared_blk (blk : block) (u : Z) : block :=
+  upd (upd (upd blk L_hist_n (VInt 0)) L_hist_u (VInt 0)) L_useq_last (VInt u).
+
+Lemma cleared_len blk u : length blk = LBUF_CELLS -> length (cleared_blk blk u) = LBUF_CELLS.
+Proof.
+  intro H. unfold cleared_blk.
+  assert (L1 : length (upd blk L_hist_n (VInt 0)) = LBUF_CELLS) by (rewrite upd_length; [exact H|rewrite H; unfold LBUF_CELLS; fld_ne]).
+  assert (L2 : length (upd (upd blk L_hist_n (VInt 0)) L_hist_u (VInt 0)) = LBUF_CELLS) by (rewrite upd_length; [exact L1|rewrite L1; unfold LBUF_CELLS; fld_ne]).
+  rewrite upd_length; [exact L2|rewrite L2; unfold LBUF_CELLS; fld_ne].
+Qed.
+Lemma cleared_cell blk u j : length blk = LBUF_CELLS ->
+  nth_error (cleared_blk blk u) j =
+  if Nat.eqb j L_useq_last then Some (VInt u) else if Nat.eqb j L_hist_u then Some (VInt 0) else
+  if Nat.eqb j L_hist_n then Some (VInt 0) else nth_error blk j.
+Proof.
+  intro H. unfold cleared_blk.
+  assert (L1 : length (upd blk L_hist_n (VInt 0)) = LBUF_CELLS) by (rewrite upd_length; [exact H|rewrite H; unfold LBUF_CELLS; fld_ne]).
+  assert (L2 : length (upd (upd blk L_hist_n (VInt 0)) L_hist_u (VInt 0)) = LBUF_CELLS) by (rewrite upd_length; [exact L1|rewrite L1; unfold LBUF_CELLS; fld_ne]).
+  destruct (Nat.eqb_spec j L_useq_last) as [->|N1]; [apply nth_error_upd_same; rewrite L2; unfold LBUF_CELLS; fld_ne|].
+  rewrite nth_error_upd_other by (try exact N1; rewrite L2; unfold LBUF_CELLS; fld_ne).
+  destruct (Nat.eqb_spec j L_hist_u) as [->|N2]; [apply nth_error_upd_same; rewrite L1; unfold LBUF_CELLS; fld_ne|].
+  rewrite nth_error_upd_other by (try exact N2; rewrite L1; unfold LBUF_CELLS; fld_ne).
+  destruct (Nat.eqb_spec j L_hist_n) as [->|N3]; [apply nth_error_upd_same; rewrite H; unfold LBUF_CELLS; fld_ne|].
+  apply nth_error_upd_other; [rewrite H; unfold LBUF_CELLS; fld_ne|exact N3].
+Qed.
+(* a field store / load on a struct block that was just stored into: the memory stays of the form upd m bl B *)
+Lemma fld_store_upd (m : mem) bl (b : block) i v z : (bl < length m)%nat -> (i < length b)%nat -> z = Z.of_nat i ->
+  store (upd m bl b) bl z v = Ok (upd m bl (upd b i v)).
+Proof.
+  intros Hbl Hi Hz. rewrite (fld_store (upd m bl b) bl b i v z) by (try assumption; apply mem_upd_same; exact Hbl).
+  f_equal. apply upd_upd. exact Hbl.
+Qed.
+Lemma fld_load_upd (m : mem) bl (b : block) i v z : (bl < length m)%nat -> nth_error b i = Some v -> z = Z.of_nat i ->
+  load (upd m bl b) bl z = Ok v.
+Proof. intros Hbl Hi Hz. apply (fld_load (upd m bl b) bl b i v z); try assumption. apply mem_upd_same. exact Hbl. Qed.
+
+(* the block of `if (clear) { ... }` *)
+Lemma saved_clear_ok m bl blk lb bh hblk m1 c l2 d fuel : lbuf_rep m bl blk lb -> lbuf_ints lb ->
+  ((0 < length (hist lb))%nat -> nth_error blk L_hist = Some (VPtr bh 0) /\ nth_error m bh = Some hblk /\
+                                  (9 * length (hist lb) <= length hblk)%nat) ->
+  avoids (ptrs_from hblk 0 (length (hist lb))) [bl; bh] -> free_list (ptrs_from hblk 0 (length (hist lb))) m = Ok m1 ->
+  (length (hist lb) < fuel)%nat ->
+  exec (callf cprog fuel (S (S d))) fuel saved_clear (mkst [VPtr bl 0; c; l2] m)
+  = ONormal (mkst [VPtr bl 0; c; VInt (Z.of_nat (length (hist lb)))] (upd m1 bl (cleared_blk blk (useq lb))))
+  /\ nth_error m1 bl = Some blk.
+Proof.
+  intros R Hints Hh Ha Hf Hfu. pose proof R as [Rb Rl Ru Rsz Rn Rhu Rz Rla Rh]. pose proof Hints as (Hu & Hz & Hl & Hs & Hc & Hn).
+  set (n := length (hist lb)) in *.
+  assert (Hb1 : nth_error m1 bl = Some blk).
+  { rewrite (free_list_keeps _ m m1 [bl; bh] bl Hf Ha (or_introl eq_refl)). exact Rb. }
+  split; [|exact Hb1].
+  assert (Hloop : exec (callf cprog fuel (S (S d))) fuel saved_loop (mkst [VPtr bl 0; c; VInt (Z.of_nat 0)] m)
+                  = ONormal (mkst [VPtr bl 0; c; VInt (Z.of_nat n)] m1)).
+  { destruct (Nat.eq_dec n 0) as [E0|E0].
+    - (* an empty log: the loop body never runs, hist is not read *)
+      fold n in Hf. rewrite E0 in *. cbn in Hf. injection Hf as <-.
+      destruct fuel as [|fuel0]; [lia|]. unfold saved_loop, saved_clear; cbn [fn_body cf_lbuf_saved]. rewrite exec_for. xstep.
+      xfld Rb Rn. reflexivity.
+    - destruct (Hh ltac:(lia)) as (Hp & Hhb & Hlen).
+      apply (saved_loop_ok bl blk bh hblk n c d fuel Rn (fun _ => Hp) Hlen Hn n 0%nat m m1 fuel ltac:(lia) Rb Hhb Ha Hf Hfu). }
+  unfold saved_clear; cbn [fn_body cf_lbuf_saved]. rewrite exec_seq, exec_seq. xstep.
+  unfold saved_loop, saved_clear in Hloop; cbn [fn_body cf_lbuf_saved] in Hloop. change (Z.of_nat 0) with 0 in Hloop. rewrite Hloop. xstep.
+  change (wrap I32 0) with 0.
+  assert (Hbl : (bl < length m1)%nat) by (apply nth_error_Some; congruence).
+  rewrite (fld_store m1 bl blk L_hist_n _ _ Hb1) by (try reflexivity; fld_len). xstep.
+  set (b1 := upd blk L_hist_n (VInt 0)).
+  assert (L1 : length b1 = LBUF_CELLS) by (unfold b1; rewrite upd_length; [exact Rl|fld_len]).
+  rewrite (fld_store_upd m1 bl b1 L_hist_u _ _ Hbl) by (try reflexivity; rewrite L1; unfold LBUF_CELLS; fld_ne). xstep.
+  set (b2 := upd b1 L_hist_u (VInt 0)).
+  assert (L2 : length b2 = LBUF_CELLS) by (unfold b2; rewrite upd_length; [exact L1|rewrite L1; unfold LBUF_CELLS; fld_ne]).
+  assert (C68 : nth_error b2 L_useq = Some (VInt (useq lb))).
+  { unfold b2, b1. rewrite nth_error_upd_other by (try fld_ne; rewrite upd_length by fld_len; fld_len).
+    rewrite nth_error_upd_other by (try fld_ne; fld_len). exact Ru. }
+  rewrite (fld_load_upd m1 bl b2 L_useq _ _ Hbl C68) by reflexivity. xstep. rewrite (wrap_I32_id _ Hu), (wrap_I32_id _ Hu).
+  rewrite (fld_store_upd m1 bl b2 L_useq_last _ _ Hbl) by (try reflexivity; rewrite L2; unfold LBUF_CELLS; fld_ne). xstep.
+  reflexivity.
+Qed.
+
+(* lbuf_saved(lb, clear) with clear != 0: every log entry's four pointers are freed, in order; the heap hypothesis is that this
+   sequence of frees is legal (free_list = Ok: each pointer is NULL or points to the start of a live block, none twice) and
+   touches neither the struct, nor the log array, nor the table bufs *)
+Theorem tr_lbuf_saved_clear m bl blk lb bh hblk gblk m1 c d fuel : lbuf_rep m bl blk lb -> lbuf_ints lb -> useq lb < 2147483647 ->
+  c <> 0 ->
+  ((0 < length (hist lb))%nat -> nth_error blk L_hist = Some (VPtr bh 0) /\ nth_error m bh = Some hblk /\
+                                  (9 * length (hist lb) <= length hblk)%nat) ->
+  avoids (ptrs_from hblk 0 (length (hist lb))) [bl; bh; G_bufs] ->
+  free_list (ptrs_from hblk 0 (length (hist lb))) m = Ok m1 ->
+  bl <> G_bufs -> nth_error m G_bufs = Some gblk -> nth_error gblk B_lb = Some (VPtr bl 0) ->
+  (length (hist lb) < fuel)%nat ->
+  let blk' := upd (upd (cleared_blk blk (useq lb)) L_useq_zero (VInt (useq lb))) L_useq (VInt (useq lb + 1)) in
+  callf cprog fuel (S (S (S d))) F_lbuf_saved [VPtr bl 0; VInt c] m = Ok (VUndef, upd m1 bl blk')
+  /\ lbuf_rep (upd m1 bl blk') bl blk' (lbuf_saved lb true).
+Proof.
+  intros R Hints Hmax Hc0 Hh Ha Hf Hg Hgb Hxb Hfu blk'.
+  assert (Ha2 : avoids (ptrs_from hblk 0 (length (hist lb))) [bl; bh]).
+  { intros v b Hin Hv Hk. apply (Ha v b Hin Hv). destruct Hk as [<-|[<-|[]]]; [left; reflexivity|right; left; reflexivity]. }
+  destruct (saved_clear_ok m bl blk lb bh hblk m1 (VInt c) VUndef d fuel R Hints Hh Ha2 Hf Hfu) as [Hclr Hb1].
+  assert (Hgb1 : nth_error m1 G_bufs = Some gblk).
+  { rewrite (free_list_keeps _ m m1 [bl; bh; G_bufs] G_bufs Hf Ha ltac:(right; right; left; reflexivity)). exact Hgb. }
+  assert (Hbl : (bl < length m1)%nat) by (apply nth_error_Some; congruence).
+  (* the state after the block represents clear_hist lb *)
+  assert (R3 : lbuf_rep (upd m1 bl (cleared_blk blk (useq lb))) bl (cleared_blk blk (useq lb)) (clear_hist lb)).
+  { pose proof R as [Rb Rl Ru Rsz Rn Rhu Rz Rla Rh].
+    constructor; cbn [clear_hist useq hist hist_sz hist_u useq_zero useq_last length Z.of_nat];
+      try (rewrite (cleared_cell _ _ _ Rl); first [assumption|reflexivity]).
+    - apply mem_upd_same. exact Hbl.
+    - apply cleared_len. exact Rl.
+    - intro H. congruence. }
+  assert (I3 : lbuf_ints (clear_hist lb)).
+  { destruct Hints as (Hu & Hz & Hl & Hs & Hc & Hn). unfold lbuf_ints. cbn [clear_hist useq hist hist_u useq_zero useq_last length].
+    unfold i32 in *. repeat split; try lia; try apply Forall_nil. }
+  assert (Hgb3 : nth_error (upd m1 bl (cleared_blk blk (useq lb))) G_bufs = Some gblk)
+    by (rewrite mem_upd_other by (try assumption; congruence); exact Hgb1).
+  destruct (saved_tail_ok _ bl _ (clear_hist lb) gblk d fuel (VInt c) (VInt (Z.of_nat (length (hist lb)))) R3 I3 Hmax Hg Hgb3 Hxb) as [Htail Rfin].
+  cbn [clear_hist useq lbuf_seq hist_u useq_last] in Htail, Rfin. fold blk' in Htail, Rfin.
+  rewrite (upd_upd m1 bl _ blk' Hbl) in Htail, Rfin.
+  split; [|exact Rfin].
+  enter F_lbuf_saved cf_lbuf_saved. rewrite exec_seq, exec_if. xcbn.
+  destruct (Z.eqb_spec c 0) as [E|_]; [contradiction|]. cbn [negb].
+  match goal with |- context [exec ?cl ?f (SSeq (SSeq ?a ?w) ?r) ?st] => change (exec cl f (SSeq (SSeq a w) r) st) with (exec cl f saved_clear st) end.
+  rewrite Hclr.
+  match goal with |- context [exec ?cl ?f (SSeq ?a ?r) ?st] => change (exec cl f (SSeq a r) st) with (exec cl f saved_tail st) end.
+  rewrite Htail. reflexivity.
+Qed.
